@@ -138,10 +138,20 @@ void harness_consumer(void)
 			before[k] = state[k] == 1;
 			any = any || before[k];
 		}
+		verif_yield(); /* producers also run between the consumer's operations, not only at its atomic steps */
+		for(unsigned k = 0; k < NM; k++) {
+			before[k] = state[k] == 1;
+			any = any || before[k];
+		}
 		simtime_t pk = msg_queue_time_peek();
 		for(unsigned k = 0; k < NM; k++)
 			if(before[k])
 				VERIF_ASSERT(pk <= P[k]->dest_t, "the minimum-time query is not larger than any event inserted before the query began and not yet extracted");
+		for(unsigned k = 0; k < NM; k++) {
+			before[k] = state[k] == 1;
+			any = any || before[k];
+		}
+		verif_yield();
 		for(unsigned k = 0; k < NM; k++) {
 			before[k] = state[k] == 1;
 			any = any || before[k];
